@@ -684,6 +684,41 @@ def modelInitOk (t : Tables) (e : (PStr × PStr) × (List Sym × List Sym × Boo
   | some ty => modelAccepts t ty.fieldNames e.2
   | none => false
 
+/-! ## registered names: everything the configuration layer can be asked for, not only what the shipped files use -/
+
+/-- a model class with a config class: `model_name` resolves to the class and to the config class; a model that takes the
+operators (an MRI model, not a sub-network) also has its default engine `<Class>Engine` -/
+def modelRegistered (t : Tables) (m : Sym × Bool) : Bool :=
+  let n := t.strOf m.1
+  resolves t.modules (modelTarget n) && (lookupSchema t (modelConfigTarget n)).isSome &&
+    (!m.2 || resolves t.modules (engineTarget n none))
+
+/-- an engine class is reachable by `setup_engine`: it lives in `direct.nn.<pkg>.<pkg>_engine` -/
+def engineReachable (t : Tables) (e : PStr × PStr) : Bool :=
+  let parts := splitDot (unpack e.1)
+  let pkg := (parts.drop 2).headD []
+  let target := engineTarget (pkg ++ [dot]) (some (unpack e.2))
+  pack target.1 == e.1 && resolves t.modules target
+
+/-- a dataset name: `build_dataset` finds `<name>Dataset` and `load_dataset_config` finds `<name>Config` -/
+def datasetRegistered (t : Tables) (d : Sym) : Bool :=
+  resolves t.modules (datasetClassTarget (t.strOf d)) && (lookupSchema t (datasetConfigTarget (t.strOf d))).isSome
+
+def maskFuncRegistered (t : Tables) (m : Sym) : Bool := resolves t.modules (maskFuncTarget (t.strOf m))
+
+/-- a member name of `TransformsType` is accepted by the `transforms_type` field of the transform schema -/
+def transformsTypeAccepted (schema : Ty) (k : Sym) (name : Sym) : Bool :=
+  match schema with
+  | .struct _ fields =>
+    match lookup k fields with
+    | some (ty, _) => (validate ty (.str name 0)).isOk
+    | none => false
+  | _ => false
+
+/-- a metric / regularizer name (`"fn"` or `"fn(arg=…)"`) is a function of `direct.functionals` -/
+def functionalResolves (t : Tables) (f : Sym) : Bool :=
+  resolves t.modules ((functionalTarget (t.strOf f)).1, callHead (functionalTarget (t.strOf f)).2)
+
 /-! ## edits (used by the correspondence check to send mutated trees as small messages) -/
 
 def setKey (k : Sym) (v : Val) : List (Sym × Val) → List (Sym × Val)
